@@ -7,7 +7,7 @@ namespace Juno.C16
 
 /-- Queries answered from block entries only (everything except the two state readers). -/
 def Q.blockLevel : Q → Bool
-  | .stateAtNumber | .stateAtHash => false
+  | .stateAtNumber | .stateAtHash | .eventsFrom => false
   | _ => true
 
 theorem not_dirty_above {c : Cfg} {s : St} {h a n : Nat} (I : InvA c s h a) (hn : s.mem.keepMax ≤ n) :
@@ -78,7 +78,16 @@ theorem answer_ok_above {c : Cfg} {s : St} {h a : Nat} (hh : s.db.height = some 
     apply stateRead_ok
     intro _
     exact hist_above I (by omega) (fun m hm1 hm2 => not_dirty_above I (by omega))
+  have hev : (List.range (h + 1 - n)).all (fun j => s.db.has .txs (n + j) && s.db.has .hdr (n + j)) = true := by
+    rw [List.all_eq_true]
+    intro j hj
+    have hj' := List.mem_range.mp hj
+    have := intact_of_clean I (n := n + j) (by omega) (by omega) (not_dirty_above I (by omega))
+    simp [this]
   cases q <;> simp only [answer, allOf, List.all_cons, List.all_nil, hall, Bool.and_self, if_true, hh]
+  · -- eventsFrom
+    have hng : ¬ n > h := by omega
+    simp [hng, hev]
   · -- stateAtNumber
     have hm2 := I.m2
     by_cases hs : s.mem.floorState ≠ 0
@@ -208,7 +217,7 @@ theorem never_stale {c : Cfg} {s : St} {h a : Nat} (hh : s.db.height = some h) (
         simp only [Bool.and_eq_true] at hb
         exact notStale n (viaH2n n (I.bounded .h2n n hb.1) hb.1)
       · intro hc; cases hc
-  all_goals (simp only [answer, allOf]; split <;> (intro hc; cases hc))
+  all_goals (simp only [answer, allOf]; repeat' split) <;> (intro hc; cases hc)
 
 /-- Beyond the head the node answers like the twin: not found / pruned. -/
 theorem answer_beyond_head {c : Cfg} {s : St} {h a : Nat} (hh : s.db.height = some h) (I : InvA c s h a)
